@@ -12,6 +12,8 @@ reg = load()
 props = [json.loads(l)["id"] for l in open(os.path.join(ROOT, "properties.jsonl"))]
 na = json.load(open(os.path.join(ROOT, "tools", "not_applicable.json")))
 hooks = json.load(open(os.path.join(ROOT, "tools", "hooks.json")))
+enabled = set(json.load(open(os.path.join(ROOT, "tools", "enabled.json"))))
+reg = {k: v for k, v in reg.items() if k in enabled}
 checks = []
 for pid in props:
     if pid not in reg:
